@@ -44,14 +44,15 @@ def run(ctx, replay=None):
     # right-hand sides that return arrays the caller still owns (the state vector itself, a stored array)
     for it in ("euler", "rk4"):
         al = K.alias_intact(it)
-        ctx.replayed += 2
+        ctx.replayed += 4
         ctx.case(["alias", it], sample={"alias": it, "observed": al} if len(ctx.samples) < 4 else None)
         for k, v in al.items():
             if not v:
                 ctx.violation("rk:%s:alias:%s" % (it, k), "%s iterator with a right-hand side that returns %s: %s" %
-                              (it, "its argument" if k in ("state", "step_alias") else "a stored array",
+                              (it, "its argument" if k in ("state", "step_alias") else ("one work array it refills on every call" if k.startswith("step_workbuf") else "a stored array"),
                                {"state": "the state vector it was given was modified", "stored": "the array owned by the right-hand side was modified",
-                                "step_alias": "the step is not the documented one", "step_stored": "the step is not the documented one"}[k]), {"iterator": it, "observed": al})
+                                "step_alias": "the step is not the documented one", "step_stored": "the step is not the documented one",
+                                "step_workbuf": "the step is not the documented one", "step_workbuf_t": "the step is not the documented one (x' = t^3)"}[k]), {"iterator": it, "observed": al})
     if not cases:
         return
     out, res = eval_cases("RungeKutta", cases, tag="rk")
